@@ -193,7 +193,7 @@ Section Thm.
     { unfold PyDecoder_judge_dec in HA. destruct (judge m) as [n| |] eqn:E; try discriminate.
       destruct (parse_payload _ _); [|discriminate]. exact HA. }
     assert (Hjm : judge (firstn k m) = More).
-    { unfold PyDecoder_judge in *.
+    { unfold PyDecoder_judge in *. rewrite !shorter_ltb in *.
       assert (Hlk : length (firstn k m) = k) by (rewrite firstn_length; lia). rewrite Hlk.
       destruct (Nat.ltb k HEADER_SIZE) eqn:E0; [reflexivity|]. apply Nat.ltb_ge in E0.
       destruct (Nat.ltb (length m) HEADER_SIZE) eqn:E1; [discriminate|].
